@@ -19,7 +19,7 @@ def build(prop, params):
     s = params['seed']
     r = stream(s, 'config')
     k = params['i'] % 10
-    if prop == 'C02' and k in (0, 1, 2, 3):
+    if prop == 'C02' and k in (0, 1, 2, 3, 4, 5):
         rp = stream(s, 'program')
         prog = const_program(rp)
         text, pr = to_text(prog)
@@ -185,6 +185,10 @@ def execute(prop, scn):
             continue
         D = len(ref['history'])
         ds = list(range(1, D + 1)) if D <= 24 else sorted(r.sample(range(1, D + 1), 24))
+        if scn['source'] == 'gen:const':
+            # the interesting values are computed by the compiler; two faulted
+            # runs suffice, the budget goes into more programs
+            ds = ds[:1] + ds[-1:] if D > 1 else ds
         nv = len(res.violations)
         for d in ds:
             for kind in ('F1', 'F5b'):
